@@ -117,6 +117,21 @@ class ImplicitFuncComp(ImplicitComponent):
                 raise RuntimeError(f"{self.msginfo}: failed jit compile of solve_nonlinear "
                                    f"function: {err}")
 
+    @property
+    def _mode(self):
+        """
+        Return the direction used to compute the partial jacobian.
+
+        The coloring (if any) is computed for this direction, so _jax_linearize has to use it
+        too instead of the direction of the total derivative solve.
+
+        Returns
+        -------
+        str
+            The partial derivative direction, 'fwd' or 'rev'.
+        """
+        return self.best_partial_deriv_direction()
+
     def setup(self):
         """
         Define our inputs and outputs.
